@@ -77,7 +77,7 @@ def unit_formatter(sess, ctx):
         if not ok:
             return None
         tpl, a, kw = calls[0]
-        ms = r_trunc(R(sec) * 1000)
+        ms = r_trunc(eng.spec_mul(sec, 1000))
         if exp == "S":
             eng.prove("C15:formatter:%S-is-seconds-with-three-decimals", tpl == "{:.3f}" and a == (sec,) and not kw, props=P15)
         elif exp == "I":
